@@ -442,6 +442,10 @@ func (i *Interp) visitInstr(fr *frame, instr ssa.Instruction) continuation {
 		x := fr.get(instr.X)
 		switch x := x.(type) {
 		case []value:
+			if ref := i.symIndexRef(fr, instr, x, fr.get(instr.Index)); ref != nil {
+				fr.set(instr, ref)
+				break
+			}
 			idx := i.indexCheck(fr, fr.get(instr.Index), len(x))
 			fr.set(instr, &x[idx])
 			fr.lastIAptr, fr.lastIAslice = &x[idx], x[idx:]
@@ -450,6 +454,10 @@ func (i *Interp) visitInstr(fr *frame, instr ssa.Instruction) continuation {
 				i.runtimePanic(fr, "invalid memory address or nil pointer dereference")
 			}
 			a := (*x).(array)
+			if ref := i.symIndexRef(fr, instr, a, fr.get(instr.Index)); ref != nil {
+				fr.set(instr, ref)
+				break
+			}
 			idx := i.indexCheck(fr, fr.get(instr.Index), len(a))
 			fr.set(instr, &a[idx])
 		default:
@@ -460,12 +468,26 @@ func (i *Interp) visitInstr(fr *frame, instr ssa.Instruction) continuation {
 		x := fr.get(instr.X)
 		switch x := x.(type) {
 		case array:
+			if v, ok := i.symSelect(fr, []value(x), fr.get(instr.Index), instr.Type()); ok {
+				fr.set(instr, v)
+				break
+			}
 			idx := i.indexCheck(fr, fr.get(instr.Index), len(x))
 			fr.set(instr, copyVal(x[idx]))
 		case string:
+			if _, isT := fr.get(instr.Index).(*Term); isT {
+				if v, ok := i.symSelect(fr, strBytes(x), fr.get(instr.Index), instr.Type()); ok {
+					fr.set(instr, v)
+					break
+				}
+			}
 			idx := i.indexCheck(fr, fr.get(instr.Index), len(x))
 			fr.set(instr, int64(x[idx]))
 		case *symstr:
+			if v, ok := i.symSelect(fr, x.b, fr.get(instr.Index), instr.Type()); ok {
+				fr.set(instr, v)
+				break
+			}
 			idx := i.indexCheck(fr, fr.get(instr.Index), len(x.b))
 			fr.set(instr, x.b[idx])
 		default:
@@ -576,7 +598,11 @@ func (i *Interp) callSSA(caller *frame, callpos token.Pos, fn *ssa.Function, arg
 			i.initPackage(fn.Pkg)
 		}
 		if fn.Blocks == nil {
-			i.unsupported("no code for function: %s", info.name)
+			chain := ""
+			for f, k := caller, 0; f != nil && k < 6; f, k = f.caller, k+1 {
+				chain += " <- " + f.fn.String()
+			}
+			i.unsupported("no code for function: %s%s", info.name, chain)
 		}
 	}
 	if fn.TypeParams().Len() > 0 && len(fn.TypeArgs()) == 0 {
